@@ -250,10 +250,25 @@ func (parser *Parser) ParseExpression(depth int) (res Sexp, err error) {
 	lexer := parser.lexer
 	env := parser.env
 
-	//getAnother:
+getAnother:
+	if depth == 0 {
+		// top level: at the end of the input, flush what the lexer holds back.
+		if err = parser.fillAtTopLevel(); err != nil {
+			return SexpEnd, err
+		}
+	}
 	tok, err := lexer.GetNextToken()
 	if err != nil {
 		return SexpEnd, err
+	}
+	if tok.typ == TokenEnd && depth > 0 {
+		// inside a bracket (after a prefix such as %, ^, ~): wait for the rest.
+		parser.sendMe.Err = ErrMoreInputNeeded
+		ok := parser.yield(parser.sendMe)
+		if !ok {
+			return SexpEnd, nil
+		}
+		goto getAnother
 	}
 
 	switch tok.typ {
@@ -356,26 +371,26 @@ func (parser *Parser) ParseExpression(depth int) (res Sexp, err error) {
 		exp, err := parser.ParseInfix(depth + 1)
 		return exp, err
 	case TokenQuote:
-		expr, err := parser.ParseExpression(depth + 1)
+		expr, err := parser.ParseExpression(depth)
 		if err != nil {
 			return SexpNull, err
 		}
 		return MakeList([]Sexp{env.MakeSymbol("quote"), expr}), nil
 	case TokenCaret:
 		// '^' is now our syntax-quote symbol, not TokenBacktick, to allow go-style `string literals`.
-		expr, err := parser.ParseExpression(depth + 1)
+		expr, err := parser.ParseExpression(depth)
 		if err != nil {
 			return SexpNull, err
 		}
 		return MakeList([]Sexp{env.MakeSymbol("syntaxQuote"), expr}), nil
 	case TokenTilde:
-		expr, err := parser.ParseExpression(depth + 1)
+		expr, err := parser.ParseExpression(depth)
 		if err != nil {
 			return SexpNull, err
 		}
 		return MakeList([]Sexp{env.MakeSymbol("unquote"), expr}), nil
 	case TokenTildeAt:
-		expr, err := parser.ParseExpression(depth + 1)
+		expr, err := parser.ParseExpression(depth)
 		if err != nil {
 			return SexpNull, err
 		}
@@ -467,7 +482,15 @@ func (parser *Parser) ParseExpression(depth int) (res Sexp, err error) {
 	case TokenSymbol:
 		if tok.str == "-" || tok.str == "+" {
 			// are we -Inf ?
-			tok2, err := parser.ParserPeekNextToken(0)
+			var tok2 Token
+			if depth == 0 {
+				if err = parser.fillAtTopLevel(); err != nil {
+					return SexpEnd, err
+				}
+				tok2, err = lexer.PeekNextToken(0)
+			} else {
+				tok2, err = parser.ParserPeekNextToken(0)
+			}
 			if err != nil {
 				return SexpEnd, err
 			}
@@ -724,6 +747,38 @@ func (parser *Parser) ParseInfix(depth int) (Sexp, error) {
 	}
 	return &list, nil
 	//return &SexpArray{Val: arr, Infix: true, Env: env}, nil
+}
+
+// fillAtTopLevel is used when the parser is not inside any bracket. It
+// returns when a token is available or the input has truly ended. If the
+// input stops inside a string, raw string, char literal or block comment it
+// asks for more input, like an open bracket does.
+func (parser *Parser) fillAtTopLevel() error {
+	lexer := parser.lexer
+	for {
+		tok, err := lexer.PeekNextToken(0)
+		if err != nil {
+			return err
+		}
+		if tok.typ != TokenEnd {
+			return nil
+		}
+		unfinished, err := lexer.finishAtEOF()
+		if err != nil {
+			return err
+		}
+		if unfinished {
+			parser.sendMe.Err = ErrMoreInputNeeded
+			ok := parser.yield(parser.sendMe)
+			if !ok {
+				return ParserHaltRequested
+			}
+			continue
+		}
+		if len(lexer.tokens) == 0 {
+			return nil
+		}
+	}
 }
 
 func (parser *Parser) Linenum() int {
